@@ -8,6 +8,7 @@ import (
 	"net"
 	"os"
 	"sync"
+	"sync/atomic"
 	"time"
 )
 
@@ -19,7 +20,8 @@ import (
 //	eof N       deliver N bytes together with io.EOF (N may be 0)
 //	ioerr N     deliver N bytes together with an I/O error
 //	ioerr-timeout N  like ioerr, but the error is ErrIOTimeout
-//	cancel      call the cancel hook, then behave like timeout
+//	cancel      call the cancel hook, then behave like timeout; with Ms > 0 the read then blocks Ms milliseconds and delivers
+//	            N bytes (a read that was in flight when the caller gave up, and completes later)
 type Event struct {
 	Kind string `json:"k"`
 	N    int    `json:"n,omitempty"`
@@ -74,6 +76,20 @@ type Script struct {
 	Consumed int
 	deadline time.Time
 	Flushes  int
+	inflight atomic.Int32
+}
+
+// WaitIdle waits until no Read call is in flight (a client may have abandoned one) or the ceiling passes; it reports whether
+// the transport is idle.
+func (s *Script) WaitIdle(ceiling time.Duration) bool {
+	end := time.Now().Add(ceiling)
+	for s.inflight.Load() != 0 {
+		if time.Now().After(end) {
+			return false
+		}
+		time.Sleep(200 * time.Microsecond)
+	}
+	return true
 }
 
 type timeoutErr struct{}
@@ -127,6 +143,8 @@ func (s *Script) take(p []byte, want int) int {
 }
 
 func (s *Script) read(p []byte) (int, error) {
+	s.inflight.Add(1)
+	defer s.inflight.Add(-1)
 	s.mu.Lock()
 	if len(s.Events) == 0 {
 		wait := s.IdleWait
@@ -185,9 +203,16 @@ func (s *Script) read(p []byte) (int, error) {
 		pop()
 		return s.logRead(p, n, ErrIOTimeout)
 	case "cancel":
+		ms, n := ev.Ms, ev.N
 		pop()
 		if s.OnCancel != nil {
 			s.OnCancel()
+		}
+		if ms > 0 {
+			s.mu.Unlock()
+			time.Sleep(time.Duration(ms) * time.Millisecond)
+			s.mu.Lock()
+			return s.logRead(p, s.take(p, n), nil)
 		}
 		return s.logRead(p, 0, ErrTimeout)
 	}
